@@ -113,10 +113,14 @@ CHECKS.update({
         technique="Lean 4 proof (string-level model of str.replace / fnmatch / os.path; escaping theorem for all strings) + correspondence with TsDB.list/get/in/common",
         text="Theorems: the three-step replacement with the ':[:' detour is character-wise escaping for every string; fnmatch of the "
              "escaped pattern = shell matching where only * and ? are special (for all patterns and keys); listing = for each "
-             "pattern in order the registered keys in registration order that match; common path is a string prefix of every "
-             "normalised key; every key selects itself uniquely by its full key; get / in agree with the listing; selection by "
+             "pattern in order the registered keys in registration order that match; the common path (of the directory parts, "
+             "since the F33 repair) is a string prefix and a directory prefix of every key (common_dirPrefix: every key is "
+             "common + '/' + rel), short names of getm are exactly rel and in-memory names are kept (retKey_relative, "
+             "retKey_no_common), without a common path the relative listing is the listing; every key selects itself uniquely "
+             "by its full key (no side condition any more); get / in agree with the listing; selection by "
              "the listed relative name is unambiguous when no other key ends in '/<name>' (partial) with a machine-checked "
-             "counterexample otherwise (F18) and the single-series-with-unit-brackets case by computation.",
+             "counterexample otherwise (F18); the single-series-with-unit-brackets case and one quantity in two units ([kN/m], [kN/s]; "
+             "file-backed and in-memory) by kernel computation.",
         note=TB + "fnmatch character ranges not modelled (patterns always reach fnmatch escaped); POSIX paths.",
         ref="4/C09"),
     "C10": dict(
